@@ -2,6 +2,8 @@ package pvpeg
 
 import (
 	"math/rand"
+	"regexp"
+	"sort"
 	"strings"
 	"unicode"
 	"unicode/utf8"
@@ -169,8 +171,10 @@ var tokenPool = []string{
 	"// c\n", "/* c */", "/*", "*/", "//", "\n", "\n\n", " ", "\t", "\r", "\x00", "\xff", "\ufeff", "\u2028", "𝒳",
 }
 
+var unicodeClassRE = regexp.MustCompile(`\\p\{[A-Za-z_0-9]*\}`)
+
 // MutationNames lists the kinds of Mutate, in the order of its op argument.
-var MutationNames = []string{"tok-delete", "tok-insert", "tok-replace", "tok-dup", "tok-swap", "byte-delete", "byte-insert", "byte-replace", "byte-flip", "truncate"}
+var MutationNames = []string{"tok-delete", "tok-insert", "tok-replace", "tok-dup", "tok-swap", "byte-delete", "byte-insert", "byte-replace", "byte-flip", "truncate", "drop-closer"}
 
 // Mutate applies one random mutation of kind op (an index into MutationNames;
 // negative = random) to text and returns the result and the kind's name.
@@ -203,6 +207,37 @@ func Mutate(r *rand.Rand, text string, op int) (string, string) {
 	}
 	b := []byte(text)
 	i := r.Intn(len(b))
+	if op == 10 {
+		// remove one closing delimiter (the documented "not terminated" diagnostics: a class, a
+		// \p{...} name, a code block, a group or a literal that never ends)
+		// one category of closer is chosen first, so that rare ones (the brace of a \\p{Name} inside a
+		// class) are hit as often as the ubiquitous ones (the brace of a code block)
+		cats := map[string][]int{}
+		for k, c := range b {
+			if strings.IndexByte("}])'\"`", c) >= 0 {
+				cats[string(c)] = append(cats[string(c)], k)
+			}
+		}
+		for _, m := range unicodeClassRE.FindAllIndex(b, -1) {
+			cats["p}"] = append(cats["p}"], m[1]-1)
+		}
+		var names []string
+		for n := range cats {
+			names = append(names, n)
+		}
+		sort.Strings(names)
+		if len(names) > 0 {
+			at := cats[names[r.Intn(len(names))]]
+			i = at[r.Intn(len(at))]
+		}
+		if r.Intn(3) == 0 {
+			// ... or closed by the wrong closer ("[\\p{L]]": the class name ends at a bracket)
+			const closers = "}])"
+			b[i] = closers[r.Intn(len(closers))]
+			return string(b), name
+		}
+		return string(append(b[:i:i], b[i+1:]...)), name
+	}
 	switch op {
 	case 5:
 		b = append(b[:i:i], b[i+1:]...)
